@@ -4,15 +4,18 @@ regenerates lean/Ezc3dVerif.lean (the library root importing every module)."""
 import re, os, json, glob
 V = os.path.dirname(os.path.dirname(os.path.abspath(__file__)))
 out = {}
+mods_of = {}
 for f in sorted(glob.glob(os.path.join(V, "lean/Ezc3dVerif/Properties/C*.lean"))):
-    pid = os.path.basename(f)[:-5]
+    pid = os.path.basename(f)[:3]          # C03.lean, C03b.lean -> C03
     src = open(f).read()
     ns = re.search(r"^namespace (\S+)", src, re.M).group(1)
-    out[pid] = ["%s.%s" % (ns, m) for m in re.findall(r"^theorem ([\w.?!']+)", src, re.M)]
+    out.setdefault(pid, []).extend("%s.%s" % (ns, m) for m in re.findall(r"^theorem ([\w.?!']+)", src, re.M))
+    mods_of.setdefault(pid, []).append("Ezc3dVerif.Properties." + os.path.basename(f)[:-5])
+out["_modules"] = mods_of
 json.dump(out, open(os.path.join(V, "lean/theorems.json"), "w"), indent=1)
 mods = []
 for sub in ("Basic", "Model", "Spec", "Proofs", "Properties"):
     for f in sorted(glob.glob(os.path.join(V, "lean/Ezc3dVerif", sub, "*.lean"))):
         mods.append("import Ezc3dVerif.%s.%s" % (sub, os.path.basename(f)[:-5]))
 open(os.path.join(V, "lean/Ezc3dVerif.lean"), "w").write("\n".join(mods) + "\n")
-print({k: len(v) for k, v in out.items()})
+print({k: len(v) for k, v in out.items() if k != '_modules'})
